@@ -1134,6 +1134,15 @@ func ruleT12(c *Ctx, id string) {
 			okRet[rs.From] = true
 		}
 	}
+	// (the lookup may be made by a private helper that makes it on all its paths: "nameTaken(dip, op, name)")
+	always := P.NewAlways(callTo(lookup)).Instr
+	viaHelper := func(in ssa.Instruction) bool {
+		if _, isC := in.(*ssa.Call); !isC {
+			return false
+		}
+		g := staticCallee(in)
+		return g != nil && g != lookup && isPrivateHelper(g) && always(in)
+	}
 	hasLookup := func(b *ssa.BasicBlock, after ssa.Instruction) bool {
 		seenAfter := after == nil
 		for _, in := range b.Instrs {
@@ -1141,7 +1150,7 @@ func ruleT12(c *Ctx, id string) {
 				seenAfter = true
 				continue
 			}
-			if seenAfter && callTo(lookup)(in) {
+			if seenAfter && (callTo(lookup)(in) || viaHelper(in)) {
 				return true
 			}
 		}
